@@ -140,6 +140,12 @@ class Facts:
         while x['k'] == 'Unary' and x['op'] == '!':
             x = x['expr']
             pol = not pol
+        if x['k'] == 'Binary' and x['op'] == '||':
+            from .metafacts import disjuncts
+            subs = []
+            for d in disjuncts(x):
+                subs += self.single_cond(d, True, scope, fw, depth)
+            return [('or', tuple(subs), pol)]
         if x['k'] == 'MethodCall' and not x['args']:
             m = x['method']
             if m == 'is_some':
